@@ -12,8 +12,16 @@ pub trait FilterPredicate: Send + Sync {
     fn evaluate(&self, chunk: &DataChunk, row: usize) -> bool;
 
     /// Evaluate predicate for all rows, returning a selection vector.
+    ///
+    /// The vector holds physical row positions. Only rows the chunk still selects are
+    /// candidates: a row an upstream filter removed must not come back.
     fn evaluate_batch(&self, chunk: &DataChunk) -> SelectionVector {
-        SelectionVector::from_predicate(chunk.len(), |i| self.evaluate(chunk, i))
+        match chunk.selection() {
+            Some(existing) => existing.filter(|row| self.evaluate(chunk, row)),
+            None => SelectionVector::from_predicate(chunk.total_row_count(), |row| {
+                self.evaluate(chunk, row)
+            }),
+        }
     }
 }
 
@@ -258,5 +266,22 @@ mod tests {
         filter.finalize(&mut sink).unwrap();
 
         assert_eq!(sink.row_count(), 6);
+    }
+
+    #[test]
+    fn test_filter_on_chunk_with_selection_vector() {
+        // physical rows -5 1 -5 2 -5 3, of which positions 1, 3, 5 are selected
+        let mut chunk = create_test_chunk(&[-5, 1, -5, 2, -5, 3]);
+        let mut selection = SelectionVector::new_empty();
+        for i in [1, 3, 5] {
+            selection.push(i);
+        }
+        chunk.set_selection(selection);
+
+        let mut filter = FilterPushOperator::column_compare(0, CompareOp::Gt, Value::Int64(0));
+        let mut sink = CollectorSink::new();
+        filter.push(chunk, &mut sink).unwrap();
+
+        assert_eq!(sink.row_count(), 3);
     }
 }
